@@ -108,6 +108,7 @@ struct Cfg {
   int writer = 0; // 0 AsciiFile, 1 Gadget
   bool temperature = false;
   bool trackers = false;
+  int fields_mask = 0; // non-default output fields switched on
   int tracker_variant = 0; // 0: one Spectrum tracker; else number and types
   long nbuffers = 0, ntasks = 0, queue = 0; // 0 = derive
   // swarm knob: run the case once with capacities that can never be
@@ -176,6 +177,7 @@ struct Cfg {
     j["temperature"] = temperature;
     j["trackers"] = trackers;
     j["tracker_variant"] = tracker_variant;
+    j["fields_mask"] = fields_mask;
     j["tight_pools"] = tight_pools;
     j["nbuffers"] = (long long)nbuffers;
     j["ntasks"] = (long long)ntasks;
@@ -223,6 +225,7 @@ struct Cfg {
     c.temperature = j.at("temperature").as_bool();
     c.trackers = j.at("trackers").as_bool();
     c.tracker_variant = (int)j.at("tracker_variant").as_int(0);
+    c.fields_mask = (int)j.at("fields_mask").as_int(0);
     c.tight_pools = j.at("tight_pools").as_bool();
     c.nbuffers = j.at("nbuffers").as_int(0);
     c.ntasks = j.at("ntasks").as_int(0);
@@ -392,6 +395,16 @@ struct Cfg {
     o << "  diffuse field: " << (diffuse ? "true" : "false") << "\n";
     o << "  enable trackers: " << (trackers ? "true" : "false") << "\n";
     o << "  output folder: " << dir << "\n";
+    if (fields_mask != 0) {
+      // non-default output fields
+      o << "DensityGridWriterFields:\n";
+      if (fields_mask & 1)
+        o << "  Temperature: 1\n";
+      if (fields_mask & 2)
+        o << "  CosmicRayFactor: 1\n";
+      if (fields_mask & 4)
+        o << "  NumberDensity: 1\n";
+    }
     o << "DensityGridWriter:\n  type: " << (writer == 0 ? "AsciiFile" : "Gadget")
       << "\n  prefix: snap_\n  padding: 3\n";
     if (trackers) {
